@@ -167,6 +167,8 @@ def gen(prop, stream, tier, avoid):
                 # the caller keeps ONE list of insertion counts and selects the directions with the parameter list only
                 # (num = [2, 2]; insert_knot(s, [0.3, None], num); insert_knot(s, [None, 0.6], num)); or passes obj.degree
                 ops[-1]["held_num"] = rng.pick([1, 1, 2, "degree"])
+            if rng.chance(0.12):
+                ops[-1]["nocheck"] = True      # check_num=False / check_r=False: "the caller has checked the counts" (they are admissible here)
         elif k == "read":
             ops.append({"op": "read", "obj": o})
         elif k == "reject":
@@ -195,6 +197,8 @@ def gen(prop, stream, tier, avoid):
             ops.append({"op": "remove", "obj": o, "via": rng.pick(["method", "operations"]), "dirs": dirs})
             if ops[-1]["via"] == "operations" and nd > 1 and rng.chance(0.35):
                 ops[-1]["held_num"] = rng.pick([1, 1, 2])
+            if rng.chance(0.12):
+                ops[-1]["nocheck"] = True
         else:
             dens = [0] * nd
             dens[rng.randrange(nd)] = 1
@@ -542,16 +546,16 @@ def _held_list(lv, held, plan, avail):
     return lv.held_nums.setdefault(held, [held] * lv.nd)
 
 
-def _call_insert(lv, via, params, nums, held=None):
+def _call_insert(lv, via, params, nums, held=None, nocheck=False):
     g = shapes.G
     obj = lv.obj
     if via == "operations":
-        g.operations.insert_knot(obj, ARGSEQ[0](params), held if held is not None else ARGSEQ[0](nums))
+        g.operations.insert_knot(obj, ARGSEQ[0](params), held if held is not None else ARGSEQ[0](nums), **({"check_num": False} if nocheck else {}))
         return
+    kw = {"check_r": False} if nocheck else {}
     if lv.nd == 1:
-        obj.insert_knot(params[0], num=nums[0])
+        obj.insert_knot(params[0], num=nums[0], **kw)
     else:
-        kw = {}
         for d in range(lv.nd):
             if params[d] is not None:
                 kw[shapes.SUFFIX[d]] = params[d]
@@ -559,16 +563,16 @@ def _call_insert(lv, via, params, nums, held=None):
         obj.insert_knot(**kw)
 
 
-def _call_remove(lv, via, params, nums, held=None):
+def _call_remove(lv, via, params, nums, held=None, nocheck=False):
     g = shapes.G
     obj = lv.obj
     if via == "operations":
-        g.operations.remove_knot(obj, ARGSEQ[0](params), held if held is not None else ARGSEQ[0](nums))
+        g.operations.remove_knot(obj, ARGSEQ[0](params), held if held is not None else ARGSEQ[0](nums), **({"check_num": False} if nocheck else {}))
         return
+    kw = {"check_r": False} if nocheck else {}
     if lv.nd == 1:
-        obj.remove_knot(params[0], num=nums[0])
+        obj.remove_knot(params[0], num=nums[0], **kw)
     else:
-        kw = {}
         for d in range(lv.nd):
             if params[d] is not None:
                 kw[shapes.SUFFIX[d]] = params[d]
@@ -740,7 +744,10 @@ def run(script, ctx):
                 ctx.probe("caller_held_count_list:" + str(op["held_num"]))
             what = "insert_knot(%s) params=%r nums=%r%s" % (op["via"], params, nums, "" if held is None else " (counts passed as the caller-held list %r)" % (list(held),))
             try:
-                _call_insert(lv, op["via"], params, nums, held)
+                if op.get("nocheck"):
+                    ctx.probe("checks_disabled_by_caller")
+                    what += " (check_num / check_r = False)"
+                _call_insert(lv, op["via"], params, nums, held, nocheck=bool(op.get("nocheck")))
             except Exception as e:
                 if prop == "C06":
                     raise Precondition("insertion raised %r" % (e,))
@@ -975,7 +982,9 @@ def run(script, ctx):
                 if r < extra:
                     ctx.probe("partial_removal")
             try:
-                _call_remove(lv, op["via"], params, nums, held)
+                if op.get("nocheck"):
+                    ctx.probe("checks_disabled_by_caller")
+                _call_remove(lv, op["via"], params, nums, held, nocheck=bool(op.get("nocheck")))
             except Exception as e:
                 ctx.fail("valid_remove_raised", "%s raised %r on %s degrees=%r knots=%r" % (what, e, kind, lv.degrees, lv.knots), **sig)
             for d, u, r, extra in plan:
